@@ -17,7 +17,31 @@ file = keys of a freshly opened artifact; refused operations leave keys, file tr
 were; a load under filter terms returns a sub-list of the rows (and a subset of the columns) of the
 unfiltered load, and terms on columns that exist nowhere change nothing.
 
-The input class with a recorded finding gets its own stable signature (and only it):
+What the property requires for the unusual inputs (audit against notes/LESSONS.md):
+  * JSON-representable values are compared modulo JSON (a tuple loads as a list, an int dict key as a str key, numpy.float64
+    as float; NaN / Infinity / 2**70 / -0.0 / non-ASCII text must come back); integer width and object / str / category
+    dtype of table cells are not compared, everything else (labels, names, order, Python type of every cell) is.
+  * Tables with named, unnamed or default (RangeIndex) indexes, repeated and unsorted labels, categorical / datetime
+    levels and columns, int32 / uint8 / float32 columns, int column names, Series of any name must round-trip.
+    TOLERATED (coordinator's decision, tagged `tolerated:unnamed-index` in the distribution): index NAMES of unnamed levels
+    are not part of the claim – the unnamed levels of a MultiIndex of an EMPTY frame or of a Series come back as level_0, …;
+    an empty frame with ONE unnamed index is refused (IndexError in HDFStore.put), atomically.
+    RECORDED FINDING F29 `draw-filter-series-name`: a stored Series whose name the draw selection does not contain cannot
+    be loaded through an artifact with that draw filter (signature used for exactly that class).
+  * Keys: any characters are legal in a part – blanks (F28), dashes, non-ASCII, … – except "." and "/" (the HDF path
+    separator: a key containing it is malformed, F27).
+  * `where` terms: integer, fractional (multiples of 1/8, on the float level) and string (== / != on string and
+    categorical levels) constants; a fractional constant against an integer column is not generated (pandas rounds it).
+  * Two live artifacts on one file: the property speaks about one artifact's history and freshly opened ones. A live
+    artifact whose key list / cache is older than the other one's last mutation may report old keys and hand out old
+    data (never data that was never written under that key: `invented-data`); once such an artifact has WRITTEN (it
+    persists its old key list) only `invented-data` and "refused / reading operations change nothing" are claimed.
+  * A real simulation (kind "sim"): builder.data.load through the ArtifactManager must return exactly what
+    `manager_expected` computes from the configuration (input_draw_number incl. 0, artifact_filter_term) and the written
+    data; the artifact file's bytes must not change; a compound artifact_filter_term must be refused at setup.
+
+The input classes with a recorded finding get their own stable signature (and only they):
+  draw-filter-series-name  see above (F29)
   nested-key-paths      the failing key's HDF path is a prefix / extension of the path of another key that a
                         write / replace / remove of the history addressed, or of metadata.keyspace (F12)
 """
@@ -35,12 +59,17 @@ from ..runner import Prop
 KS = "metadata.keyspace"
 FLAT = ["x.y.z", "x.y.w", "x.v", "m.n", "m.o.p", "g.h"]
 NEST = ["a.b", "a.b.c", "a.b.d", "a.c", "a.c.e"]
-MALFORMED = ["a", "a.b.c.d", "a..b", ".a.b", "a.b.", "", ".", "a.", "..", "a.b..c", "a.b.c.d.e"]
+MALFORMED = ["a", "a.b.c.d", "a..b", ".a.b", "a.b.", "", ".", "a.", "..", "a.b..c", "a.b.c.d.e",
+             "p/q.r", "a.b/c", "/a.b", "a.b.c/", "a/b/c", "x.y/z.w"]
 INT_LEVELS = ["i", "j", "year", "age"]
-TERM_COLS = ["i", "j", "year", "age", "index", "value", "zz", "draw_0", "qq"]
+TERM_COLS = ["i", "j", "year", "age", "index", "value", "zz", "draw_0", "qq", "s", "sex", "f"]
+UNUSUAL = ["x-1.9y.Zö", "Ä.ü", "a!b.c:d", "q.r-s", "T.U.V", "0.1", "k l.m n", "b c.d", " lead.trail "]      # legal keys with unusual characters, unrelated to every other pool key
 NOWHERE = {"zz", "qq"}            # column names no generated data ever has, in any role
 CMPS = {"lt": "<", "le": "<=", "eq": "==", "ne": "!=", "ge": ">=", "gt": ">"}
 STORABLE = ("json", "frame", "series")
+UNSER = ["set", "object", "nested", "bytes", "key", "ndarray", "npint", "timestamp", "frame-in-dict"]
+ZEROROW = ["df", "cols", "series", "indexed", "multi"]
+BADFRAME = ["sets", "mixed", "empty-unnamed", "empty-range"]
 MUTATING = ("write", "replace", "remove")
 
 
@@ -50,9 +79,10 @@ def parts(key: str):
 
 
 def well_formed(key: str) -> bool:
-    """the property's notion of a well-formed key: two or three non-empty dot-separated parts"""
+    """the property's notion of a well-formed key: two or three non-empty dot-separated parts that are names –
+    no "/" (the HDF path separator; F27)"""
     ps = parts(key)
-    return len(ps) in (2, 3) and all(ps)
+    return len(ps) in (2, 3) and all(ps) and "/" not in key
 
 
 def related(k1: str, k2: str) -> bool:
@@ -64,73 +94,161 @@ def related(k1: str, k2: str) -> bool:
     return a[:n] == b[:n]
 
 
+def enc_key(key: str) -> str:
+    """keys on the line protocol: every character outside [A-Za-z0-9_./] as ~<hex code point>~ (the model treats key
+    parts as opaque names; dots, slashes and emptiness are preserved)"""
+    return "".join(c if (c.isascii() and (c.isalnum() or c in "_./")) else f"~{ord(c):x}~" for c in key)
+
+
+def dec_key(tok: str) -> str:
+    out, i = [], 0
+    while i < len(tok):
+        if tok[i] == "~":
+            j = tok.index("~", i + 1)
+            out.append(chr(int(tok[i + 1:j], 16)))
+            i = j + 1
+        else:
+            out.append(tok[i])
+            i += 1
+    return "".join(out)
+
+
 # --------------------------------------------------------------------------------------------- data
+T0 = "2020-01-01"
+SCALE = 8          # every generated number that a `where` term can see is a multiple of 1/8
+
+
+def _level(vals, ldtype):
+    import pandas as pd
+    if ldtype == "category":
+        return pd.Categorical(vals)
+    if ldtype == "datetime":
+        return [pd.Timestamp(T0) + pd.Timedelta(days=int(v)) for v in vals]
+    return list(vals)
+
+
+def _column(vals, dtype):
+    import numpy as np
+    import pandas as pd
+    if dtype == "category":
+        return pd.Categorical(vals)
+    if dtype == "datetime":
+        return [pd.Timestamp(T0) + pd.Timedelta(days=int(v)) for v in vals]
+    if dtype in ("int32", "float32", "uint8", "int8"):
+        return np.array(vals, dtype=dtype)
+    return list(vals)
+
+
+def _pyjson(v, how):
+    """JSON-serialisable Python values that are not what they load back as"""
+    import numpy as np
+    if how == "tuple":
+        return tuple(_pyjson(x, how) for x in v) if isinstance(v, list) else v
+    if how == "intkeys":
+        return {int(k): x for k, x in v.items()}
+    if how == "npfloat":
+        return np.float64(v)
+    if how == "nan":
+        return [float("nan"), float("inf"), v]
+    return v
+
+
 def build(spec):
     """the Python value a data spec denotes"""
+    import numpy as np
     import pandas as pd
     t = spec["t"]
     if t == "json":
-        return spec["v"]
+        return _pyjson(spec["v"], spec.get("py"))
     if t in ("frame", "series"):
         names, rows = spec["names"], spec["index"]
-        if len(names) == 1:
-            index = pd.Index([r[0] for r in rows], name=names[0])
+        ld = spec.get("ldtypes") or [None] * len(names)
+        if spec.get("default_index"):
+            index = None
+        elif len(names) == 1:
+            index = pd.Index(_level([r[0] for r in rows], ld[0]), name=names[0])
         else:
-            index = pd.MultiIndex.from_tuples([tuple(r) for r in rows], names=names)
+            index = pd.MultiIndex.from_arrays([_level([r[k] for r in rows], ld[k]) for k in range(len(names))], names=names)
         if t == "series":
-            return pd.Series(list(spec["values"]), index=index, name=spec["name"])
-        return pd.DataFrame({c: list(v) for c, v in spec["cols"]}, index=index)
+            return pd.Series(_column(spec["values"], spec.get("dtype")), index=index, name=spec["name"])
+        dts = spec.get("dtypes") or {}
+        cols = {(int(c[1:]) if c.startswith("#") else c): _column(v, dts.get(c)) for c, v in spec["cols"]}
+        if not cols:
+            return pd.DataFrame(index=index if index is not None else pd.RangeIndex(len(rows)))
+        return pd.DataFrame(cols, index=index)
     if t == "unser":
-        return {"set": {1, 2}, "object": object(), "nested": {"a": [1, {"b": {3}}]}, "bytes": b"xy",
-                "key": {(1, 2): 3}}[spec["v"]]
+        return {"set": {1, 2}, "object": object(), "nested": {"a": [1, {"b": {3}}]}, "bytes": b"xy", "key": {(1, 2): 3},
+                "ndarray": np.array([1, 2]), "npint": np.int64(3), "timestamp": pd.Timestamp(T0),
+                "frame-in-dict": {"a": pd.DataFrame({"v": [1]})}}[spec["v"]]
     if t == "zerorow":
         return {"df": pd.DataFrame(), "cols": pd.DataFrame({"value": []}),
                 "series": pd.Series([], dtype=float, name="value"),
-                "indexed": pd.DataFrame({"value": []}, index=pd.Index([], name="i"))}[spec["v"]]
+                "indexed": pd.DataFrame({"value": []}, index=pd.Index([], name="i")),
+                "multi": pd.DataFrame({"value": []}, index=pd.MultiIndex.from_tuples([], names=["i", "j"]))}[spec["v"]]
     if t == "badframe":
         if spec["v"] == "sets":
             return pd.DataFrame({"value": [{1}, {2}]}, index=pd.Index([1, 2], name="i"))
+        if spec["v"] == "empty-unnamed":      # tolerated class `unnamed-index`: HDFStore.put raises IndexError
+            return pd.DataFrame(index=pd.Index([5, 6, 7]))
+        if spec["v"] == "empty-range":
+            return pd.DataFrame(index=pd.RangeIndex(3))
         return pd.DataFrame({"value": [1, "a"]}, index=pd.Index([1, 2], name="i"))
     raise ValueError(t)
 
 
 def _cv(x):
     import numpy as np
+    import pandas as pd
     if isinstance(x, (bool, np.bool_)):
         return ["b", bool(x)]
     if isinstance(x, (int, np.integer)):
-        return ["i", int(x)]
+        return ["i", int(x)]          # integer width (int32 / int64 / uint8) is not compared
     if isinstance(x, (float, np.floating)):
         return ["f", float(x).hex()]
     if isinstance(x, str):
         return ["s", str(x)]
     if x is None:
         return ["n"]
+    if isinstance(x, (pd.Timestamp, np.datetime64)):
+        return ["t", str(pd.Timestamp(x))]
     return ["?", repr(x)[:40]]
 
 
+def _nm(n):
+    return n if n is None or isinstance(n, str) else f"<{n!r}>"
+
+
 def canon(obj):
-    """canonical, JSON-serialisable form of a loaded / built value (dtype object vs str ignored)"""
+    """canonical, JSON-serialisable form of a loaded / built value (dtype object / str / category and integer
+    width ignored; labels, names, order of rows and columns, Python type of every scalar compared)"""
     import pandas as pd
     if isinstance(obj, pd.DataFrame):
         idx = [list(t) if isinstance(t, tuple) else [t] for t in obj.index.tolist()]
         vals = [[obj.iloc[r, c] for c in range(obj.shape[1])] for r in range(len(obj))]
-        return {"t": "frame", "names": [None if n is None else str(n) for n in obj.index.names],
-                "cols": [str(c) for c in obj.columns],
+        return {"t": "frame", "names": [_nm(n) for n in obj.index.names],
+                "cols": [_nm(c) for c in obj.columns],
                 "rows": [[_cv(v) for v in i] + [_cv(v) for v in row] for i, row in zip(idx, vals)]}
     if isinstance(obj, pd.Series):
         idx = [list(t) if isinstance(t, tuple) else [t] for t in obj.index.tolist()]
-        return {"t": "series", "names": [None if n is None else str(n) for n in obj.index.names],
-                "cols": [None if obj.name is None else str(obj.name)],
+        return {"t": "series", "names": [_nm(n) for n in obj.index.names],
+                "cols": [_nm(obj.name)],
                 "rows": [[_cv(v) for v in i] + [_cv(x)] for i, x in zip(idx, obj.tolist())]}
     try:
-        return {"t": "json", "v": json.dumps(obj, sort_keys=True)}
+        return {"t": "json", "v": json.dumps(obj, sort_keys=True)}      # modulo JSON: tuple = list, int key = str key
     except Exception:  # noqa: BLE001
         return {"t": "other", "v": repr(obj)[:60]}
 
 
 def spec_canon(spec):
-    return canon(build(spec)) if spec["t"] in STORABLE else None
+    if spec["t"] not in STORABLE:
+        return None
+    c = canon(build(spec))
+    if spec["t"] != "json" and len(spec["names"]) > 1 and all(n is None for n in spec["names"]) and not spec.get("default_index") \
+            and (spec["t"] == "series" or not spec["cols"]):
+        # tolerated class `unnamed-index`: an empty frame and a Series are stored with their index turned into
+        # columns; the levels of a MultiIndex without names come back under pandas' default names level_0, level_1, …
+        c["names"] = [f"level_{k}" for k in range(len(spec["names"]))]
+    return c
 
 
 def first_ids(data):
@@ -142,43 +260,64 @@ def first_ids(data):
     return out
 
 
-def _is_int_valued(vals):
-    return all(isinstance(v, (int, float)) and not isinstance(v, bool) and float(v) == int(v) for v in vals)
+def _numeric(vals):
+    return all(isinstance(v, (int, float)) and not isinstance(v, bool) and float(v) * SCALE == int(float(v) * SCALE) for v in vals)
 
 
-def table_view(spec):
-    """what filter terms can see of a stored pandas object (layout of HDFStore.put(format='table') as
-    used by hdf._write_pandas_data): queryable integer columns, their rows, value columns, is_empty."""
+def table_cols(spec):
+    """what filter terms can see of a stored pandas object (layout of HDFStore.put(format='table') as used by
+    hdf._write_pandas_data): the queryable columns with their values (numbers or strings only), the value
+    columns, is_empty, is_series. Derived from the spec alone, never read back from the file."""
     names, rows = spec["names"], spec["index"]
     n = len(rows)
-    levels = {nm: [r[k] for r in rows] for k, nm in enumerate(names)}
-    multi = len(names) > 1
+    ld = spec.get("ldtypes") or [None] * len(names)
+    default = bool(spec.get("default_index"))
+    levels = {} if default else {nm: [r[k] for r in rows] for k, nm in enumerate(names) if nm is not None and ld[k] != "datetime"}
+    multi = len(names) > 1 and not default
+    first = list(range(n)) if default else [r[0] for r in rows]
     if spec["t"] == "series":
         cols, empty = [spec["name"]], False
-        q = {"index": list(range(n))} if multi else {"index": levels[names[0]]}
+        q = {"index": list(range(n))} if multi else {"index": first}
         if multi:
             q.update(levels)
-        q[spec["name"]] = list(spec["values"])
+        if spec["name"] is not None and spec.get("dtype") != "datetime":
+            q[spec["name"]] = list(spec["values"])
     else:
-        cols = [c for c, _ in spec["cols"]]
+        cols = [_nm(int(c[1:])) if c.startswith("#") else c for c, _ in spec["cols"]]     # canonical column names
         empty = not cols
-        if empty:
-            q = {"index": list(range(n))}
-            q.update(levels)
-        elif multi:
+        if empty or multi:
             q = {"index": list(range(n))}
             q.update(levels)
         else:
-            q = {"index": levels[names[0]]}
-    qcols = [c for c, v in q.items() if _is_int_valued(v)]
-    qrows = [[int(q[c][r]) for c in qcols] for r in range(n)]
-    return qcols, qrows, cols, empty
+            q = {"index": first}
+    q = {c: v for c, v in q.items() if _numeric(v) or all(isinstance(x, str) for x in v)}
+    return q, cols, empty, spec["t"] == "series"
+
+
+class Vocab:
+    """strings as integer codes for the model (only == / != are used on strings)"""
+
+    def __init__(self):
+        self.codes = {}
+
+    def num(self, v):
+        if isinstance(v, str):
+            return self.codes.setdefault(v, 1000003 + 7 * len(self.codes))
+        return int(round(float(v) * SCALE))
+
+
+def table_view(spec, vocab):
+    q, cols, empty, series = table_cols(spec)
+    qcols = list(q)
+    n = len(spec["index"])
+    return qcols, [[vocab.num(q[c][r]) for c in qcols] for r in range(n)], cols, empty, series
 
 
 # --------------------------------------------------------------------------------------------- terms
 def render_term(t) -> str:
     if t[0] == "atom":
-        return f"{t[1]} {CMPS[t[2]]} {t[3]}"
+        v = t[3]
+        return f"{t[1]} {CMPS[t[2]]} " + (f"'{v}'" if isinstance(v, str) else repr(v))
     if t[0] == "and":
         return f"({render_term(t[1])}) & ({render_term(t[2])})"
     if t[0] == "or":
@@ -189,12 +328,12 @@ def render_term(t) -> str:
     return f"draw {'==' if style == 'eq' else '='} {ns[0]}"
 
 
-def rpn(t) -> list:
+def rpn(t, vocab) -> list:
     if t[0] == "atom":
-        return [f"{t[1]}:{t[2]}:{t[3]}"]
+        return [f"{t[1]}:{t[2]}:{vocab.num(t[3])}"]
     if t[0] in ("and", "or"):
-        return rpn(t[1]) + rpn(t[2]) + ["&" if t[0] == "and" else "|"]
-    return ["draws:" + ":".join(str(n) for n in t[1])]
+        return rpn(t[1], vocab) + rpn(t[2], vocab) + ["&" if t[0] == "and" else "|"]
+    return [":".join(["draws"] + [str(n) for n in t[1]])]
 
 
 def term_cols(t) -> set:
@@ -203,6 +342,47 @@ def term_cols(t) -> set:
     if t[0] in ("and", "or"):
         return term_cols(t[1]) | term_cols(t[2])
     return {"draw"}
+
+
+_PYCMP = {"lt": lambda a, b: a < b, "le": lambda a, b: a <= b, "eq": lambda a, b: a == b,
+          "ne": lambda a, b: a != b, "ge": lambda a, b: a >= b, "gt": lambda a, b: a > b}
+
+
+def _holds(t, row) -> bool:
+    if t[0] == "atom":
+        return _PYCMP[t[2]](row[t[1]], t[3])
+    if t[0] == "and":
+        return _holds(t[1], row) and _holds(t[2], row)
+    if t[0] == "or":
+        return _holds(t[1], row) or _holds(t[2], row)
+    return True
+
+
+def draw_columns(terms):
+    """what the property text / the documentation of filter terms says a draw selection keeps: draw_<n> for the
+    selected n, and `value`. Returns "refused" for what the constructor must refuse (several draw terms, none selected)."""
+    ds = [t for t in terms if t[0] == "draws"]
+    if len(ds) > 1 or (ds and not ds[0][1]):
+        return "refused"
+    return None if not ds else [f"draw_{n}" for n in ds[0][1]] + ["value"]
+
+
+def expected_view(spec, terms):
+    """the rows (positions) and value columns an artifact with filter `terms` must hand out for the stored pandas
+    object `spec` – evaluated in Python on the spec (the property: terms restrict rows; terms that reference a
+    column the stored table does not offer are ignored; a draw selection keeps the selected draw columns and
+    `value`). "raises": tolerated class `draw-filter-series-name`."""
+    q, cols, empty, series = table_cols(spec)
+    n = len(spec["index"])
+    valid = [t for t in terms if t[0] != "draws" and term_cols(t) <= set(q)]
+    rows = [r for r in range(n) if all(_holds(t, {c: q[c][r] for c in q}) for t in valid)]
+    want = draw_columns(terms)
+    if want is None or want == "refused" or empty:
+        return rows, cols
+    kept = [c for c in want if c in cols]
+    if series and not kept:
+        return "raises"
+    return rows, (cols if series else kept)
 
 
 # --------------------------------------------------------------------------------------------- implementation
@@ -220,6 +400,9 @@ def _observe(art, path, mode, ident, view, memo=None):
     from vivarium.framework.artifact import Artifact, hdf
     import tables
     o = {"keys": [str(k) for k in art.keys]}
+    # other call forms of the same question: iteration and membership must agree with `keys`
+    o["forms_ok"] = (list(art) == list(art.keys) and all(k in art for k in art.keys)
+                     and "never.written.key" not in art and repr(art) == f"Artifact(keys={art.keys})")
     reuse = None
     if memo is not None and memo.get("h") is not None and memo["h"] == _digest(path):
         reuse = memo["obs"]
@@ -249,7 +432,7 @@ def _observe(art, path, mode, ident, view, memo=None):
             o["fresh"] = "err"
             o["fresh_exc"] = type(e).__name__
     loads = {}
-    for k in o["keys"]:
+    for k in o["keys"] + [x for x in (o["fresh"] if o["fresh"] != "err" else []) if x not in o["keys"]]:
         if k == KS:
             continue
         if o["fresh"] == "err":
@@ -307,7 +490,14 @@ def _run(case):
             c = canon(x)
             return ["filtered", c] if c["t"] in ("frame", "series") else ["data", ident(x)]
 
-        art = Artifact(path, filter_terms=[render_term(t) for t in case.get("terms") or []] or None)
+        import pathlib
+        if case.get("noise"):      # process history: another artifact with other terms was used (and stays alive) in this process
+            other = Artifact(os.path.join(d, "other.hdf"), filter_terms=["year > 3", "draw == 2"])
+            other.write("x.y.z", build({"t": "frame", "names": ["year"], "index": [[1], [5]], "cols": [["draw_2", [1.0, 2.0]]]}))
+            other.load("x.y.z")
+        apath = pathlib.Path(path) if case.get("pathobj") else path          # both call forms of the constructor
+        art = Artifact(apath, filter_terms=[render_term(t) for t in case.get("terms") or []] or None)
+        parked = None
         mode = case["probe"]
         memo = None if case.get("fullobs") else {}
         out = {"init": _observe(art, path, mode, ident, view, memo), "ops": []}
@@ -326,7 +516,13 @@ def _run(case):
                 elif kind == "clear":
                     art.clear_cache()
                 elif kind == "reopen":
-                    art = Artifact(path, filter_terms=[render_term(t) for t in op[1]] or None)
+                    art = Artifact(apath, filter_terms=[render_term(t) for t in op[1]] or None)
+                elif kind == "switch":       # two live artifacts on one file
+                    if parked is None:
+                        new = Artifact(apath, filter_terms=[render_term(t) for t in op[1]] or None)
+                        art, parked = new, art
+                    else:
+                        art, parked = parked, art
                 elif kind == "fload":
                     terms = [render_term(t) for t in op[2]]
                     rec["terms"] = terms
@@ -352,6 +548,124 @@ def _run(case):
         shutil.rmtree(d, ignore_errors=True)
 
 
+# --------------------------------------------------------------------------------------------- a real simulation
+def manager_expected(spec, draw, term, filters):
+    """what `builder.data.load(key, **filters)` must return for the stored value `spec` in a simulation configured with
+    input_data.input_draw_number = draw and input_data.artifact_filter_term = term – from the documentation of
+    ArtifactManager.load / filter_data and the spec alone: the artifact's view under "draw == <draw>", index turned
+    into columns, the draw column renamed to `value`, the configured term applied when its column exists, rows
+    subset to the requested values of the filter columns, filter columns and `draw` dropped.
+    Returns ("json",) | ("raises", why) | ("frame", columns, rows, labels)."""
+    if spec["t"] == "json":
+        return ("json",)
+    ev = expected_view(spec, [["draws", [draw], "eq"]] if draw is not None else [])
+    if ev == "raises":
+        return ("raises", "draw-filter-series-name")
+    rows, vcols = ev
+    if spec["t"] == "series":
+        return ("series", rows)
+    names = list(spec["names"])
+    colvals = dict(spec["cols"])
+    ld = spec.get("ldtypes") or [None] * len(names)
+    table = {nm: [_lv(r[k], ld[k]) for r in spec["index"]] for k, nm in enumerate(names)}
+    for c in vcols:
+        table[c] = [_lv(v, (spec.get("dtypes") or {}).get(c)) for v in colvals[c]]
+    cols = names + list(vcols)
+    dc = [c for c in cols if "draw" in c]
+    if dc:
+        table = {("value" if c == dc[0] else c): v for c, v in table.items()}
+        cols = ["value" if c == dc[0] else c for c in cols]
+    keep = list(rows)
+    if term is not None:
+        tcol, tcmp, tval = term
+        if tcol in cols:
+            keep = [r for r in keep if _PYCMP[tcmp](table[tcol][r], tval)]
+    extra = [c for c in filters if c not in cols]
+    if extra:
+        return ("raises", "filter-on-absent-column")
+    for c, cond in filters.items():
+        cond = cond if isinstance(cond, list) else [cond]
+        keep = [r for r in keep if any(table[c][r] == x for x in cond)]
+    out = [c for c in cols if c not in filters and c != "draw"]
+    return ("frame", out, [[_cv(table[c][r]) for c in out] for r in keep], keep)
+
+
+def _lv(v, dtype):
+    import pandas as pd
+    return pd.Timestamp(T0) + pd.Timedelta(days=int(v)) if dtype == "datetime" else v
+
+
+def render_config_term(term, style):
+    if term is None:
+        return None
+    col, cmp_, val = term
+    v = f"'{val}'" if isinstance(val, str) else repr(val)
+    return f"{col}{CMPS[cmp_]}{v}" if style == "tight" else f"{col} {CMPS[cmp_]} {v}"
+
+
+def _run_sim(case):
+    """a real SimulationContext whose configuration points at an artifact: a probe component loads keys through
+    builder.data.load (ArtifactManager) during setup"""
+    impl.load()
+    from vivarium import Component
+    from vivarium.framework.artifact import Artifact
+    from vivarium.framework.engine import SimulationContext
+    d = tempfile.mkdtemp(prefix="vc19-")
+    try:
+        path = os.path.join(d, "artifact.hdf")
+        data = case["data"]
+        cstr = [json.dumps(spec_canon(s), sort_keys=True) if s["t"] in STORABLE else None for s in data]
+
+        def ident(x):
+            c = json.dumps(canon(x), sort_keys=True)
+            return ["d", cstr.index(c)] if c in cstr else ["unknown", c[:200]]
+
+        def view(x):
+            c = canon(x)
+            return ["filtered", c] if c["t"] in ("frame", "series") else ["data", ident(x)]
+
+        writer = Artifact(path)
+        for k, di in case["writes"]:
+            writer.write(k, build(data[di]))
+        before = _digest(path)
+        out = {"loads": [], "setup": "ok"}
+
+        class Probe(Component):
+            def setup(self, builder):
+                for k, filters in case["loads"]:
+                    try:
+                        out["loads"].append(view(builder.data.load(k, **filters)))
+                    except Exception as e:  # noqa: BLE001
+                        out["loads"].append(["err", type(e).__name__])
+                out["value_columns"] = list(builder.data.value_columns()("anything"))
+
+        cfg = case["config"]
+        SimulationContext._clear_context_cache()
+        conf = {"input_data": {"artifact_path": path, "input_draw_number": cfg["draw"],
+                               "artifact_filter_term": render_config_term(cfg["term"], cfg.get("style", "spaced")) if cfg.get("raw_term") is None
+                               else cfg["raw_term"]},
+                "population": {"population_size": 1}}
+        sim = SimulationContext(components=[Probe()], configuration=conf, logging_verbosity=0)
+        try:
+            sim.setup()
+        except Exception as e:  # noqa: BLE001
+            out["setup"] = "err:" + type(e).__name__
+        art = getattr(sim._data, "artifact", None)
+        out["art_terms"] = None if art is None else art.filter_terms
+        out["art_loads"] = {}
+        if art is not None:
+            art.clear_cache()
+            for k, _ in case["writes"]:
+                try:
+                    out["art_loads"][k] = view(art.load(k))
+                except Exception:  # noqa: BLE001
+                    out["art_loads"][k] = "err"
+        out["file_unchanged"] = _digest(path) == before
+        return out
+    finally:
+        shutil.rmtree(d, ignore_errors=True)
+
+
 # --------------------------------------------------------------------------------------------- the check
 class C19(Prop):
     id = "C19"
@@ -368,7 +682,7 @@ class C19(Prop):
                "whole state except where a refused pandas value moves the key to the end of the key list / leaves a parent group")
     trusted_extra = ["PyTables/HDF5 and pandas.HDFStore as a tree of groups and leaves (Model/Artifact.lean doc-comment); "
                      "table_view() in vcheck/props/c19.py: which columns of a stored pandas object a `where` term can address"]
-    n_quick = 48
+    n_quick = 40
     n_thorough = 700
     workers = 8
     case_timeout = 120
@@ -379,62 +693,127 @@ class C19(Prop):
     def _json(self, rng, depth=0):
         r = rng.random()
         if depth >= 2 or r < 0.45:
-            return rng.choice([rng.randint(-5, 99), rng.randint(0, 40) / 4, f"s{rng.randint(0, 99)}", True, False, "", 0]
+            return rng.choice([rng.randint(-5, 99), rng.randint(0, 40) / 4, f"s{rng.randint(0, 99)}", True, False, "", 0,
+                               2 ** 70 + rng.randint(0, 9), -0.0, 1e300, "ünï cödé \u2603", "x" * 300]
                               + ([None] if depth else []))
         if r < 0.75:
             return [self._json(rng, depth + 1) for _ in range(rng.randint(0, 3))]
         return {f"k{j}": self._json(rng, depth + 1) for j in range(rng.randint(0, 3))}
 
+    def _json_spec(self, rng):
+        """JSON-representable Python values, also the ones that do not load back as the same Python type"""
+        r = rng.random()
+        if r < 0.1:
+            return {"t": "json", "v": [self._json(rng, 1) for _ in range(rng.randint(0, 3))] + [[1, [2]]], "py": "tuple"}
+        if r < 0.18:
+            return {"t": "json", "v": {str(k): self._json(rng, 1) for k in rng.sample(range(9), rng.randint(1, 3))}, "py": "intkeys"}
+        if r < 0.24:
+            return {"t": "json", "v": rng.randint(0, 40) / 4, "py": "npfloat"}
+        if r < 0.28:
+            return {"t": "json", "v": rng.randint(0, 9), "py": "nan"}
+        return {"t": "json", "v": self._json(rng)}
+
     def _index(self, rng, n, single_int=False, prefer=None):
+        """index levels: kind per level (int / str / float / categorical / datetime), named, unnamed or the default
+        RangeIndex; labels unsorted, sometimes repeated"""
         nlev = 1 if single_int else rng.choice([1, 2, 2, 3])
         if prefer is not None and nlev == 1 and rng.random() < 0.7:
             nlev = 2        # only the levels of a MultiIndex can be addressed by name in a `where` term
-        base = rng.sample(range(0, 8), n)
+        base = rng.sample(range(0, 8), n) if rng.random() < 0.8 else [rng.randint(0, 3) for _ in range(n)]    # repeated labels
         names = [prefer if prefer is not None and rng.random() < 0.75 else rng.choice(INT_LEVELS)]
-        cols = [base]
+        cols, ld = [base], [None]
         for _ in range(nlev - 1):
-            kind = rng.choice(["int", "int", "str", "float"])
+            kind = rng.choice(["int", "int", "str", "float", "cat", "date"])
             if kind == "int":
                 nm = rng.choice([x for x in INT_LEVELS if x not in names] or ["i2"])
                 cols.append([rng.randint(0, 6) for _ in range(n)])
+                ld.append(None)
             elif kind == "str" and "s" not in names:
                 nm = "s"
                 cols.append([rng.choice(["u", "v", "w"]) for _ in range(n)])
+                ld.append(None)
+            elif kind == "cat" and "sex" not in names:
+                nm = "sex"
+                cols.append([rng.choice(["m", "f"]) for _ in range(n)])
+                ld.append("category")
+            elif kind == "date" and "t" not in names:
+                nm = "t"
+                cols.append([rng.randint(0, 400) for _ in range(n)])
+                ld.append("datetime")
             elif "f" not in names:
                 nm = "f"
                 cols.append([rng.randint(0, 12) / 4 + 0.25 for _ in range(n)])
+                ld.append(None)
             else:
                 continue
             names.append(nm)
-        return names, [[c[r] for c in cols] for r in range(n)]
+        out = {"names": names, "index": [[c[r] for c in cols] for r in range(n)]}
+        if any(ld):
+            out["ldtypes"] = ld
+        return out
+
+    def _unname(self, rng, spec, allow_empty_frame):
+        """index without names: every level unnamed, or no index given at all (the default RangeIndex)"""
+        r = rng.random()
+        if r >= 0.14:
+            return spec
+        empty = spec["t"] == "frame" and not spec["cols"]
+        if r < 0.05 and not empty:
+            spec = dict(spec, names=[None], index=[[k] for k in range(len(spec["index"]))], default_index=True)
+            spec.pop("ldtypes", None)
+            return spec
+        if empty and (len(spec["names"]) == 1 or not allow_empty_frame):
+            return spec          # an empty frame with one unnamed index is refused (class `empty-frame-unnamed-index`): refusal stream
+        return dict(spec, names=[None] * len(spec["names"]))
 
     def _frame(self, rng, prefer=None):
         n = rng.randint(1, 5) if prefer is None else rng.randint(3, 6)
-        names, rows = self._index(rng, n, prefer=prefer)
+        idx = self._index(rng, n, prefer=prefer)
         ncols = rng.choice([0, 1, 1, 2, 3])
-        cols = []
-        for c in rng.sample(["value", "draw_0", "draw_1", "name", "flag", "age_end"], ncols):
+        cols, dts = [], {}
+        for c in rng.sample(["value", "draw_0", "draw_1", "name", "flag", "age_end", "when", "#1"], ncols):
             if c == "name":
                 v = [rng.choice(["p", "q", "r"]) for _ in range(n)]
+                if rng.random() < 0.4:
+                    dts[c] = "category"
             elif c == "flag":
                 v = [rng.random() < 0.5 for _ in range(n)]
-            elif c in ("draw_0", "draw_1") and rng.random() < 0.5:
+            elif c == "when":
+                v = [rng.randint(0, 400) for _ in range(n)]
+                dts[c] = "datetime"
+            elif c in ("draw_0", "draw_1", "#1") and rng.random() < 0.5:
                 v = [rng.randint(0, 50) for _ in range(n)]
+                if rng.random() < 0.4:
+                    dts[c] = rng.choice(["int32", "uint8", "int8"])
             else:
                 v = [rng.randint(0, 400) / 8 for _ in range(n)]
+                if rng.random() < 0.25:
+                    dts[c] = "float32"
             cols.append([c, v])
-        return {"t": "frame", "names": names, "index": rows, "cols": cols}
+        spec = dict({"t": "frame", "cols": cols}, **idx)
+        if dts:
+            spec["dtypes"] = dts
+        return self._unname(rng, spec, allow_empty_frame=True)
 
     def _series(self, rng, prefer=None):
         n = rng.randint(1, 5)
-        names, rows = self._index(rng, n, prefer=prefer)
-        vals = [float(rng.randint(0, 6)) for _ in range(n)] if rng.random() < 0.6 else [rng.randint(0, 6) for _ in range(n)]
-        return {"t": "series", "names": names, "index": rows, "name": "value", "values": vals}
+        idx = self._index(rng, n, prefer=prefer)
+        name = rng.choice(["value"] * 6 + ["rate", "draw_1", None])
+        r = rng.random()
+        if r < 0.45:
+            vals = [rng.randint(0, 48) / 8 for _ in range(n)]
+        elif r < 0.8 or name == "value":
+            vals = [rng.randint(0, 6) for _ in range(n)]
+        elif r < 0.9:
+            vals = [rng.choice(["p", "q"]) for _ in range(n)]
+        else:
+            vals = [rng.random() < 0.5 for _ in range(n)]
+        return self._unname(rng, dict({"t": "series", "name": name, "values": vals}, **idx), allow_empty_frame=False)
 
     def _good(self, rng, prefer=None):
         r = rng.random()
         if r < (0.4 if prefer is None else 0.25):
-            return {"t": "json", "v": self._json(rng)}
+            return self._json_spec(rng)
         if r < 0.85:
             return self._frame(rng, prefer)
         return self._series(rng, prefer)
@@ -456,10 +835,20 @@ class C19(Prop):
         rng.shuffle(ts)
         return ts, col
 
+    def _atom(self, rng):
+        """a comparison of a column with a constant of the column's kind: integers, fractions (on the float level `f`),
+        strings (on the string level `s` and the categorical level `sex`; == and != only)"""
+        col = rng.choice(TERM_COLS)
+        if col in ("s", "sex"):
+            return ["atom", col, rng.choice(["eq", "ne"]), rng.choice(["u", "v", "w", "zz"] if col == "s" else ["m", "f", "zz"])]
+        if col == "f" and rng.random() < 0.7:
+            return ["atom", col, rng.choice(list(CMPS)), rng.randint(-2, 28) / 8]
+        return ["atom", col, rng.choice(list(CMPS)), rng.randint(-1, 7)]
+
     def _term(self, rng, depth=0):
         r = rng.random()
         if depth >= 2 or r < 0.6:
-            return ["atom", rng.choice(TERM_COLS), rng.choice(list(CMPS)), rng.randint(-1, 7)]
+            return self._atom(rng)
         return [rng.choice(["and", "or"]), self._term(rng, depth + 1), self._term(rng, depth + 1)]
 
     def _terms(self, rng):
@@ -471,11 +860,18 @@ class C19(Prop):
             ts.insert(rng.randint(0, len(ts)), ["draws", ns, style])
             if r < 0.04:
                 ts.append(["draws", [1], "eq"])
+        elif r < 0.33:
+            ts.append(["draws", [], "in"])        # `draw in []`: the constructor refuses
         return ts
 
     def generate(self, rng: random.Random, i: int, tier: str):
+        if rng.random() < 0.1:
+            return self._gen_sim(rng)
         nested = rng.random() < 0.35
         pool = rng.sample(FLAT, rng.randint(2, 4)) + (rng.sample(NEST, rng.randint(2, 4)) if nested else [])
+        if rng.random() < 0.4:
+            pool += rng.sample(UNUSUAL, rng.randint(1, 2))
+        two_live = rng.random() < 0.12          # dedicated mode: two live artifact objects on the one file
         data, ops, have = [], [], []            # `have`: keys the generator believes are present (bias only)
         acting, pref = (self._acting(rng) if rng.random() < 0.45 else ([], None))
         state = {"pref": pref}                  # index level name the acting artifact's row term addresses (bias only)
@@ -515,7 +911,14 @@ class C19(Prop):
         do_write()
         while len(ops) < n_ops:
             r = rng.random()
-            if r < 0.20:
+            if two_live and r < 0.15:
+                # the other live artifact acts: mostly it only reads (stale cache / key list), sometimes it writes too
+                ops.append(["switch", self._acting(rng)[0] if rng.random() < 0.4 else []])
+                k = present()
+                ops += [["load", k]] + ([["replace", k, D(G())]] if rng.random() < 0.35 else []) + [["load", k]]
+                if rng.random() < 0.6:
+                    ops += [["switch", []], ["load", k]]
+            elif r < 0.20:
                 do_write()
             elif r < 0.32:
                 ops.append(["load", present()])
@@ -528,6 +931,8 @@ class C19(Prop):
                 ops.append(["replace", present(), D(G())])
             elif r < 0.52:
                 ops.append(["clear"])
+                if two_live:
+                    ops.append(["switch", self._acting(rng)[0] if rng.random() < 0.4 else []])
             elif r < 0.57:
                 ops.append(reopen_op())
             elif r < 0.66:
@@ -541,8 +946,8 @@ class C19(Prop):
                         t, c = self._acting(rng)
                         state["pref"] = c
                         ops.append(["reopen", t])
-                    bad = (D({"t": "zerorow", "v": rng.choice(["df", "cols", "series", "indexed"])}) if rng.random() < 0.5
-                           else D({"t": "badframe", "v": rng.choice(["sets", "mixed"])}))
+                    bad = (D({"t": "zerorow", "v": rng.choice(ZEROROW)}) if rng.random() < 0.5
+                           else D({"t": "badframe", "v": rng.choice(BADFRAME)}))
                     ops += [["write", k2, D(self._frame(rng, state["pref"]))], ["replace", k2, bad], ["load", k2]]
                     if rng.random() < 0.5:
                         ops += [["clear"], ["load", k2]]
@@ -564,7 +969,7 @@ class C19(Prop):
                         have.append(k2)
                 elif s == 3:
                     k2 = absent()
-                    ops += [["write", k2, D({"t": "unser", "v": rng.choice(["set", "object", "nested", "bytes", "key"])})],
+                    ops += [["write", k2, D({"t": "unser", "v": rng.choice(UNSER)})],
                             ["write", k2, D(G())]]
                     if k2 not in have:
                         have.append(k2)
@@ -593,19 +998,19 @@ class C19(Prop):
                 elif s == 8:
                     ops.append(["replace", rng.choice(MALFORMED), D(G())])
                 elif s == 9:
-                    ops.append(["write", absent(), D({"t": "unser", "v": rng.choice(["set", "object", "nested", "bytes", "key"])})])
+                    ops.append(["write", absent(), D({"t": "unser", "v": rng.choice(UNSER)})])
                 elif s == 10:
-                    ops.append(["replace", present(), D({"t": "unser", "v": rng.choice(["set", "object", "nested", "bytes", "key"])})])
+                    ops.append(["replace", present(), D({"t": "unser", "v": rng.choice(UNSER)})])
                 elif s == 11:
-                    ops.append(["write", absent(), D({"t": "zerorow", "v": rng.choice(["df", "cols", "series", "indexed"])})])
+                    ops.append(["write", absent(), D({"t": "zerorow", "v": rng.choice(ZEROROW)})])
                 elif s == 12:      # a pandas value the HDF layer refuses must not cost the key its data
                     k = present()
-                    bad = (D({"t": "zerorow", "v": rng.choice(["df", "cols", "series", "indexed"])}) if rng.random() < 0.5
-                           else D({"t": "badframe", "v": rng.choice(["sets", "mixed"])}))
+                    bad = (D({"t": "zerorow", "v": rng.choice(ZEROROW)}) if rng.random() < 0.5
+                           else D({"t": "badframe", "v": rng.choice(BADFRAME)}))
                     ops += [["replace", k, bad], ["load", k]]
                 elif s == 13:      # ... nor leave anything behind that blocks the key
                     k = absent()
-                    ops += [["write", k, D({"t": "badframe", "v": rng.choice(["sets", "mixed"])})],
+                    ops += [["write", k, D({"t": "badframe", "v": rng.choice(BADFRAME)})],
                             ["write", k, D({"t": "json", "v": self._json(rng)})]]
                     if k not in have:
                         have.append(k)
@@ -614,6 +1019,10 @@ class C19(Prop):
                 else:
                     ops.append(["write", KS, D(G())] if rng.random() < 0.5 else ["load", KS])
         case = {"probe": rng.choice(["self", "fresh"]), "terms": acting, "data": data, "ops": ops}
+        if rng.random() < 0.5:
+            case["pathobj"] = True        # the constructor is given a pathlib.Path
+        if rng.random() < 0.15:
+            case["noise"] = True          # another artifact with other filter terms was used before in this process and stays alive
         if tier == "thorough" or rng.random() < 0.2:
             case["fullobs"] = True        # observe from scratch after every operation (no re-use while the file's bytes are unchanged)
         return case
@@ -666,6 +1075,18 @@ class C19(Prop):
         out.append({"probe": "fresh", "data": [SF],
                     "ops": [["write", "f.z", 0], ["fload", "f.z", [T("value", "le", 0)]], ["fload", "f.z", [T("value", "lt", 0)]],
                             ["fload", "f.z", [T("value", "gt", 0)]], ["fload", "f.z", [T("j", "gt", 0)]], ["fload", "f.z", [T("value", "gt", 1)]]]})
+        # F29 (recorded finding `draw-filter-series-name`): a stored Series under a draw filter that does not name it
+        SR = {"t": "series", "names": ["i"], "index": [[1], [2]], "name": "rate", "values": [1.5, 2.5]}
+        SN = {"t": "series", "names": [None], "index": [[0], [1]], "default_index": True, "name": None, "values": [3, 4]}
+        SD = {"t": "series", "names": ["i"], "index": [[1], [2]], "name": "draw_1", "values": [1.5, 2.5]}
+        out.append({"probe": "self", "terms": [["draws", [1], "eq"]], "data": [SR, SN, SD, S],
+                    "ops": [["write", "s.rate", 0], ["write", "s.unnamed", 1], ["write", "s.draw", 2], ["write", "s.value", 3], ["load", "s.rate"],
+                            ["load", "s.draw"], ["fload", "s.unnamed", [["draws", [0, 1], "in"]]], ["reopen", []], ["load", "s.rate"], ["load", "s.unnamed"]]})
+        # legal keys with unusual characters (blanks: F28) and keys with "/" (malformed: F27), JSON and pandas values
+        out.append({"probe": "fresh", "terms": [], "data": [J([1]), F1, J("x")],
+                    "ops": [["write", "k l.m n", 0], ["write", "a b.c d.e f", 1], ["write", " lead.trail ", 2], ["write", "Ä-1.ü!", 1], ["load", "a b.c d.e f"],
+                            ["write", "p/q.r", 0], ["write", "p/q.s", 1], ["write", "a.b/c", 1], ["remove", "p/q.r"], ["replace", "a.b/c", 0], ["load", "p/q.s"],
+                            ["reopen", []], ["load", "k l.m n"], ["remove", "a b.c d.e f"], ["replace", " lead.trail ", 1], ["load", " lead.trail "]]})
         # F12: nested two-/three-part keys (recorded finding `nested-key-paths`)
         out.append({"probe": "fresh", "data": [J([2]), F1, J([3])],
                     "ops": [["write", "a.b.c", 0], ["write", "a.b", 1], ["load", "a.b.c"], ["remove", "a.b.c"]]})
@@ -698,9 +1119,20 @@ class C19(Prop):
         for c in out:
             if not any(op[0] == "fload" for op in c["ops"]):
                 c["fullobs"] = True
+        # the ArtifactManager path in a real simulation: draw 0 (falsy), no draw, a term on a present / an absent column
+        for k, (draw, term, style) in enumerate(((0, ["year", "ge", 2], "tight"), (None, ["sex", "eq", "m"], "spaced"),
+                                                 (2, ["location", "eq", "x"], "spaced"), (1, None, "spaced"))):
+            c = self._gen_sim(random.Random(100 + k))
+            c["config"] = {"draw": draw, "term": term, "style": style}
+            out.append(c)
         return out
 
     def shrink(self, case):
+        if case.get("kind") == "sim":
+            for j in range(len(case["loads"]) - 1, -1, -1):
+                if len(case["loads"]) > 1:
+                    yield dict(case, loads=case["loads"][:j] + case["loads"][j + 1:])
+            return
         ops = case["ops"]
         for n in (len(ops) // 4, len(ops) // 2, 3 * len(ops) // 4):      # truncations first: most failures are early
             if 0 < n < len(ops):
@@ -724,41 +1156,43 @@ class C19(Prop):
 
     # ------------------------------------------------------------------ implementation
     def run_impl(self, case):
-        return _run(case)
+        return _run_sim(case) if case.get("kind") == "sim" else _run(case)
 
     # ------------------------------------------------------------------ model
     @staticmethod
-    def _terms_tok(terms):
-        return ";".join(",".join(rpn(t)) for t in terms) if terms else "-"
+    def _terms_tok(terms, vocab):
+        return ";".join(",".join(rpn(t, vocab)) for t in terms) if terms else "-"
 
     def model_lines(self, case, obs):
+        if case.get("kind") == "sim":
+            return self._sim_lines(case, obs)
         L = []
+        vocab = Vocab()
+        lst = lambda xs: ",".join(xs) if xs else "-"                            # noqa: E731
         for i, s in enumerate(case["data"]):
             if s["t"] == "json":
                 L.append(f"data {i} json")
             elif s["t"] in ("frame", "series"):
-                qc, qr, cols, emp = table_view(s)
-                rows = ";".join(",".join(str(v) for v in r) if r else "-" for r in qr) if qr else "-"
-                if qr and not qc:
-                    rows = "-"
-                L.append(f"data {i} table {','.join(qc) if qc else '-'} {rows} {','.join(cols) if cols else '-'} {1 if emp else 0}")
+                qc, qr, cols, emp, ser = table_view(s, vocab)
+                rows = ";".join(",".join(str(v) for v in r) for r in qr) if qr and qc else "-"
+                L.append(f"data {i} table {lst(qc)} {rows} {lst(['<None>' if c is None else c for c in cols])} {1 if emp else 0} {1 if ser else 0}")
             else:
                 L.append(f"data {i} {s['t']}")
         if case.get("terms"):
-            L.append(f"op reopen {self._terms_tok(case['terms'])}")     # the acting artifact is created with filter terms
+            L.append(f"op reopen {self._terms_tok(case['terms'], vocab)}")     # the acting artifact is created with filter terms
         L.append(f"obs {case['probe']}")
         for op in case["ops"]:
             k = op[0]
             if k in ("write", "replace"):
-                L.append(f"op {k} k={op[1]} {'none' if op[2] is None else op[2]}")
+                L.append(f"op {k} k={enc_key(op[1])} {'none' if op[2] is None else op[2]}")
             elif k in ("load", "remove"):
-                L.append(f"op {k} k={op[1]}")
+                L.append(f"op {k} k={enc_key(op[1])}")
             elif k == "clear":
                 L.append("op clear")
-            elif k == "reopen":
-                L.append(f"op reopen {self._terms_tok(op[1])}")
+            elif k in ("reopen", "switch"):
+                L.append(f"op {k} {self._terms_tok(op[1], vocab)}")
             else:
-                L.append(f"fload k={op[1]} {self._terms_tok(op[2])}")
+                L.append(f"fload k={enc_key(op[1])} {self._terms_tok(op[2], vocab)}")
             L.append(f"obs {case['probe']}")
         return L
 
@@ -767,7 +1201,7 @@ class C19(Prop):
         if s in ("err", "nofresh"):
             return s
         if s.startswith("keys:"):
-            return ["data", ["keys", s[5:].split("+")]]
+            return ["data", ["keys", [dec_key(k) for k in s[5:].split("+")]]]
         if s.startswith("blob:"):
             return ["data", ["d", first[int(s[5:])]]]
         if s.startswith("tbl:") and s.count(":") == 3:
@@ -780,27 +1214,30 @@ class C19(Prop):
     def _parse_obs(self, reply, data, first):
         f = dict(x.split("=", 1) for x in reply.split(" "))
         lst = lambda s: [] if s == "-" else s.split(",")                        # noqa: E731
+        keys = lambda s: [dec_key(k) for k in lst(s)]                           # noqa: E731
 
         def node(s):
             if s in ("err", "nofresh"):
                 return s
             if s.startswith("keys:"):
-                return ["keys", s[5:].split("+")]
+                return ["keys", [dec_key(k) for k in s[5:].split("+")]]
             return ["d", first[int(s.split(":")[1])]]
         loads = {}
         for e in lst(f["loads"]):
             k, v = e.split("=", 1)
-            loads[k] = node(v)
+            loads[dec_key(k)] = node(v)
         selfv = None
-        if f["self"] != "-" or False:
+        if f["self"] != "-":
             selfv = {}
             for e in lst(f["self"]):
                 k, v = e.split("=", 1)
-                selfv[k] = self._model_view(v, data, first)
-        return {"keys": lst(f["keys"]), "file": sorted(lst(f["file"])), "groups": sorted(lst(f["groups"])),
-                "fresh": "err" if f["fresh"] == "err" else lst(f["fresh"]), "loads": loads, "self": selfv}
+                selfv[dec_key(k)] = self._model_view(v, data, first)
+        return {"keys": keys(f["keys"]), "file": sorted(keys(f["file"])), "groups": sorted(keys(f["groups"])),
+                "fresh": "err" if f["fresh"] == "err" else keys(f["fresh"]), "loads": loads, "self": selfv}
 
     def compare(self, case, obs, replies):
+        if case.get("kind") == "sim":
+            return self._sim_compare(case, obs, replies)
         dis = []
         data = case["data"]
         first = first_ids(data)
@@ -860,16 +1297,49 @@ class C19(Prop):
         return base
 
     def oracle(self, case, obs):
+        if case.get("kind") == "sim":
+            return self._sim_oracle(case, obs)
         fails = []
         data = case["data"]
         first = first_ids(data)
         canons = [spec_canon(s) for s in data]
+        tol = obs.setdefault("_tolerated", [])       # tolerated classes that occurred (reported in the distribution)
 
         def fail(i, key, base, msg):
             fails.append({"sig": self._sig(case, i, key, base), "msg": f"op #{i} {case['ops'][i][:2] if i >= 0 else 'init'}: {msg}"})
 
-        def check_state(i, o, exp, terms):
-            ks = o["keys"]
+        def handed_out(i, k, terms, got, exp, ever, stale):
+            """what an artifact with `terms` hands out for key k: a view of what is stored (of what was stored at some
+            time, for a live artifact whose key list and cache are older than the last mutation by the other one)"""
+            if got == "err":
+                if not stale and k in exp and data[exp[k]]["t"] != "json" and expected_view(data[exp[k]], terms) == "raises":
+                    # recorded finding F29: a stored Series cannot be loaded under a draw filter that does not name it
+                    fails.append({"sig": "draw-filter-series-name",
+                                  "msg": f"op #{i}: {k} (a Series named {data[exp[k]]['name']!r}) is reported but cannot be loaded through an "
+                                         f"artifact with terms {[render_term(t) for t in terms]}"})
+                elif not stale:
+                    fail(i, k, "listed-key-not-loadable", f"{k} is reported but load through the artifact (terms {terms}) raises")
+                return
+            if not stale:
+                if k in exp:
+                    self._check_filter(i, k, terms, got, canons[exp[k]], exp[k], fail, data[exp[k]])
+                return
+            for did in ever.get(k, []):          # stale: any value ever written under k
+                probe = []
+                self._check_filter(i, k, terms, got, canons[did], did, lambda *a: probe.append(a), data[did])
+                if not probe:
+                    return
+            fail(i, k, "invented-data", f"{k}: a live artifact hands out {json.dumps(got)[:200]}, which was never written under that key")
+
+        def check_state(i, o, exp, terms, stale, corrupt, ever):
+            if not o.get("forms_ok", True):
+                fail(i, None, "call-forms-disagree", "iter(art) / `in` / repr(art) disagree with art.keys")
+            if corrupt:          # two live artifacts both wrote: only "no invented data" is claimed
+                for k, got in o["loads"].items():
+                    if isinstance(got, list) and got[0] == "d" and got[1] not in ever.get(k, []):
+                        fail(i, k, "invented-data", f"{k} loads data {got[1]}, never written under that key")
+                return
+            ks = o["fresh"] if stale and o["fresh"] != "err" else o["keys"]      # a stale live artifact reports an old key list
             user = [k for k in ks if k != KS]
             if ks.count(KS) != 1 or len(set(ks)) != len(ks):
                 fail(i, None, "keys-malformed", f"keys {ks}")
@@ -893,23 +1363,27 @@ class C19(Prop):
                 elif k in exp and got != ["d", exp[k]]:
                     fail(i, k, "load-differs-from-written", f"{k}: loads {got}, last written data {exp[k]}")
             for k, got in (o.get("self") or {}).items():      # the same keys through the acting artifact and its filter terms
-                if got == "err":
-                    fail(i, k, "listed-key-not-loadable", f"{k} is reported but load through the acting artifact (terms {terms}) raises")
-                elif k in exp:
-                    self._check_filter(i, k, terms, got, canons[exp[k]], exp[k], fail)
+                handed_out(i, k, terms, got, exp, ever, stale)
 
         exp = {}                    # key -> data id (first equal id): what the property says is stored
-        cur_terms = list(case.get("terms") or [])      # filter terms of the acting artifact
-        check_state(-1, obs["init"], exp, cur_terms)
+        ever = {}                   # key -> every data id a write / replace tried to store under it
+        terms_of = {0: list(case.get("terms") or [])}      # filter terms of the live artifacts (slot 0 acts first)
+        fresh_view = {0: True}      # slot -> its key list and cache have seen every mutation so far
+        act, corrupt = 0, False
+        check_state(-1, obs["init"], exp, terms_of[act], False, False, ever)
         prev = obs["init"]
         for i, (op, rec) in enumerate(zip(case["ops"], obs["ops"])):
             kind, out, o = op[0], rec["out"], rec["obs"]
-            key = op[1] if len(op) > 1 and kind != "reopen" else None
+            key = op[1] if len(op) > 1 and kind not in ("reopen", "switch") else None
+            stale = not fresh_view[act]
+            cur_terms = terms_of[act]
             must_reject = None      # None: no requirement
             new_exp = dict(exp)
             if kind in ("write", "replace"):
                 spec = None if op[2] is None else data[op[2]]
                 storable = spec is not None and spec["t"] in STORABLE
+                if storable:
+                    ever.setdefault(key, []).append(first[op[2]])
                 if kind == "write":
                     must_reject = key in exp or key == KS or not well_formed(key) or not storable
                 else:
@@ -924,45 +1398,60 @@ class C19(Prop):
             elif kind in ("load", "fload"):
                 must_reject = key not in exp and key != KS
             accepted = out not in ("err", "ctor-err")
-            if kind in ("write", "replace", "remove"):
+            judged = not stale and not corrupt         # the property speaks about an artifact that has seen the whole history
+            if kind in MUTATING and judged:
                 if must_reject and accepted:
                     fail(i, key, "accepts-invalid-op", f"{kind} accepted although it must be refused")
                 if not must_reject and not accepted:
                     fail(i, key, "valid-op-refused", f"valid {kind} refused with {rec.get('exc')}")
-            if kind == "load":
-                if must_reject and accepted:
-                    fail(i, key, "accepts-invalid-op", f"load of a key never written returns {out}")
-                elif not must_reject and key != KS:
-                    if not accepted:
-                        fail(i, key, "listed-key-not-loadable", f"load of a written key raises {rec.get('exc')}")
-                    else:
-                        self._check_filter(i, key, cur_terms, out, canons[exp[key]], exp[key], fail)
-            if kind == "fload" and out != "ctor-err":
+            if kind == "load" and key != KS and not corrupt:
+                if must_reject and accepted and judged:
+                    fail(i, key, "accepts-invalid-op", f"load of a key never written returns {str(out)[:80]}")
+                elif accepted or (judged and not must_reject):
+                    handed_out(i, key, cur_terms, out if accepted else "err", exp, ever, stale)
+            if kind == "fload" and out != "ctor-err" and not corrupt:      # a third, freshly opened artifact: never stale
                 if must_reject and accepted:
                     fail(i, key, "accepts-invalid-op", f"filtered load of a key never written returns {str(out)[:80]}")
                 elif not must_reject and key != KS:
-                    if not accepted:
-                        fail(i, key, "listed-key-not-loadable", f"filtered load of a written key raises {rec.get('exc')}")
-                    else:
-                        self._check_filter(i, key, op[2], out, canons[exp[key]], exp[key], fail)
+                    handed_out(i, key, op[2], out if accepted else "err", exp, ever, False)
+            if kind in ("fload", "reopen", "switch") and out in ("err", "ctor-err") and draw_columns(op[-1]) != "refused" \
+                    and not (kind == "fload" and (must_reject or out == "err")) and not corrupt:
+                fail(i, key, "valid-op-refused", f"constructing an Artifact with terms {op[-1]} raises {rec.get('exc')}")
+            if kind in ("fload", "reopen", "switch") and draw_columns(op[-1]) == "refused" and accepted \
+                    and not (kind == "switch" and 1 in terms_of):
+                fail(i, key, "accepts-invalid-op", f"an Artifact with terms {op[-1]} was constructed")
             n_before = len(fails)
             # refused operations, and operations that only read, leave artifact and file as they were
-            if not accepted or kind in ("load", "clear", "reopen", "fload"):
+            if not accepted or kind in ("load", "clear", "reopen", "fload", "switch"):
                 base = "refused-op-changed-state" if not accepted else "read-op-changed-state"
                 what = f"{'refused ' if not accepted else ''}{kind}"
-                for k, msg in self._changes(prev, o).items():
+                before = dict(prev, keys=o["keys"]) if kind == "switch" else prev      # another artifact, another key list
+                for k, msg in self._changes(before, o).items():
                     fail(i, k, base, f"{what}: {msg}")
                 # bare groups: the parent group /type/name of a three-part key may be created by a refused write
                 own = lambda g: key is not None and well_formed(key) and parts(g) != parts(key) and parts(key)[:len(parts(g))] == parts(g)   # noqa: E731
                 g0, g1 = [g for g in prev["groups"] if not own(g)], [g for g in o["groups"] if not own(g)]
                 if g0 != g1:
                     fail(i, key, base, f"{what}: bare groups of the file were {g0} now {g1}")
-            if kind in MUTATING and accepted and not must_reject:
-                exp = new_exp
+            if kind in MUTATING and accepted:
+                if stale:
+                    corrupt = True            # a live artifact with an old key list wrote: it persisted that list (documented; nothing claimed)
+                for slot in fresh_view:
+                    if slot != act:
+                        fresh_view[slot] = False
+                if judged and not must_reject:
+                    exp = new_exp
             if kind == "reopen" and accepted:
-                cur_terms = list(op[1])
-            check_state(i, o, exp, cur_terms)
-            if len(fails) > n_before or (kind in MUTATING and accepted == bool(must_reject)):
+                terms_of[act] = list(op[1])
+                fresh_view[act] = True
+            if kind == "switch" and accepted:
+                other = 1 - act
+                if other not in terms_of:
+                    terms_of[other] = list(op[1])
+                    fresh_view[other] = True
+                act = other
+            check_state(i, o, exp, terms_of[act], not fresh_view[act], corrupt, ever)
+            if not corrupt and (len(fails) > n_before or (kind in MUTATING and judged and accepted == bool(must_reject))):
                 # adopt the observed state as the new baseline, so that one defect is reported where it happens
                 # and what follows is judged on its own
                 exp = {k: v[1] for k, v in o["loads"].items() if isinstance(v, list) and v[0] == "d"}
@@ -989,8 +1478,17 @@ class C19(Prop):
                 ch.setdefault(k, f"load({k}): {prev['loads'].get(k)} -> {o['loads'].get(k)}")
         return ch
 
-    def _check_filter(self, i, key, terms, out, full, did, fail):
+    def _check_filter(self, i, key, terms, out, full, did, fail, spec=None):
         """what an artifact with filter `terms` hands out for `key` against the stored value `full` (data id `did`)"""
+        if spec is not None and spec["t"] != "json" and out[0] == "filtered":
+            ev = expected_view(spec, terms)
+            if ev == "raises":
+                fail(i, key, "filter-wrong-rows", f"terms {terms}: a Series the draw selection does not name was handed out")
+            elif self._project(full, ev[0], ev[1]) != out[1]:
+                got = out[1]
+                fail(i, key, "filter-wrong-rows" if terms else "load-differs-from-written",
+                     f"terms {[render_term(t) for t in terms]}: handed out {len(got.get('rows', []))} rows, columns {got.get('cols')}; "
+                     f"the terms select rows {ev[0]} and columns {ev[1]} of data {did}")
         if not terms:       # an unfiltered artifact must hand out exactly what is stored
             fail0 = fail
             fail = lambda i, k, base, msg: fail0(i, k, "load-differs-from-written", msg)   # noqa: E731
@@ -1023,16 +1521,200 @@ class C19(Prop):
         if not any(t[0] == "draws" for t in terms) and full["t"] == "frame" and got["cols"] != full["cols"]:
             fail(i, key, "filter-drops-columns", f"no draw term but columns {got['cols']} of {full['cols']}")
 
+    # ------------------------------------------------------------------ the ArtifactManager path (kind "sim")
+    def _gen_sim(self, rng):
+        """an artifact with wide-on-draws tables, a long table, a Series and metadata; a simulation configured with a
+        draw number (incl. 0 and None) and a filter term (present / absent column, with and without blanks, a
+        compound one the manager refuses); builder.data.load with every call form of the column filters"""
+        n = rng.randint(3, 6)
+        years = [rng.randint(1, 4) for _ in range(n)]
+        sexes = [rng.choice(["m", "f"]) for _ in range(n)]
+        ages = [rng.randint(0, 8) / 2 for _ in range(n)]
+        idx = {"names": ["year", "sex", "age"], "index": [[y, x, a] for y, x, a in zip(years, sexes, ages)]}
+        if rng.random() < 0.4:
+            idx["ldtypes"] = [None, "category", None]
+        wide = dict({"t": "frame", "cols": [[f"draw_{k}", [rng.randint(0, 80) / 8 for _ in range(n)]] for k in range(3)]}, **idx)
+        long_ = dict({"t": "frame", "cols": [["value", [rng.randint(0, 80) / 8 for _ in range(n)]]]
+                      + ([["parameter", [rng.choice(["a", "b"]) for _ in range(n)]]] if rng.random() < 0.5 else [])}, **idx)
+        flat = {"t": "frame", "names": ["year"], "index": [[y] for y in rng.sample(range(1, 9), 3)], "cols": [["draw_1", [1.5, 2.5, 3.5]], ["draw_0", [4, 5, 6]]]}
+        ser = {"t": "series", "names": ["year", "sex"], "index": [[y, x] for y, x in zip(years, sexes)], "name": rng.choice(["value", "value", "rate"]),
+               "values": [rng.randint(0, 9) for _ in range(n)]}
+        meta = {"t": "json", "v": {"locations": ["here"], "n": 3}}
+        data = [wide, long_, flat, ser, meta]
+        writes = [["cause.c.incidence", 0], ["risk.exposure", 1], ["pop.structure", 2], ["cov.s.estimate", 3], ["metadata.locations", 4]]
+        draw = rng.choice([None, 0, 0, 1, 2, 7])
+        r = rng.random()
+        term = None if r < 0.3 else ["year", rng.choice(["ge", "eq", "lt", "ne"]), rng.randint(1, 4)] if r < 0.6 else \
+            ["sex", "eq", rng.choice(["m", "f"])] if r < 0.75 else ["age", "gt", rng.randint(0, 6) / 2] if r < 0.88 else ["location", "eq", "x"]
+        cfg = {"draw": draw, "term": term, "style": rng.choice(["spaced", "tight"])}
+        if term is not None and term[1] == "ne":
+            cfg["style"] = "spaced"      # "year!=2" without blanks is not recognised by _config_filter and silently ignored (observation)
+        if rng.random() < 0.07:
+            cfg["raw_term"] = rng.choice(["year > 1 and sex == 'm'", "year > 1 & year < 4", "year == 1 | year == 2"])
+        loads = []
+        for k, _ in writes:
+            r = rng.random()
+            f = {}
+            if r < 0.3:
+                f = {"sex": rng.choice(["m", "f"])}
+            elif r < 0.5:
+                f = {"year": rng.sample(range(1, 5), rng.randint(1, 3))}
+            elif r < 0.6:
+                f = {"year": rng.randint(1, 4), "sex": [rng.choice(["m", "f"])]}
+            elif r < 0.67:
+                f = {"nowhere": 1}
+            elif r < 0.72:
+                f = {"age": ages[0]}
+            loads.append([k, f])
+        loads.append(["never.written", {}])
+        rng.shuffle(loads)
+        return {"kind": "sim", "data": data, "writes": writes, "config": cfg, "loads": loads}
+
+    def _sim_lines(self, case, obs):
+        L = []
+        vocab = Vocab()
+        lst = lambda xs: ",".join(xs) if xs else "-"                            # noqa: E731
+        for i, s in enumerate(case["data"]):
+            if s["t"] == "json":
+                L.append(f"data {i} json")
+            else:
+                qc, qr, cols, emp, ser = table_view(s, vocab)
+                rows = ";".join(",".join(str(v) for v in r) for r in qr) if qr and qc else "-"
+                L.append(f"data {i} table {lst(qc)} {rows} {lst(cols)} {1 if emp else 0} {1 if ser else 0}")
+        for k, di in case["writes"]:
+            L.append(f"op write k={enc_key(k)} {di}")
+        draw = case["config"]["draw"]
+        for k, _ in case["writes"]:
+            L.append(f"fload k={enc_key(k)} {'draws:%d' % draw if draw is not None else '-'}")
+        return L
+
+    def _sim_compare(self, case, obs, replies):
+        """the artifact the manager built – `Artifact(path, ["draw == <n>"])` – against the model"""
+        dis = []
+        data = case["data"]
+        first = first_ids(data)
+        pos = len(data) + len(case["writes"])
+        for r in replies[:pos]:
+            if r != "ok":
+                dis.append(f"model refuses a set-up line: {r}")
+        if obs.get("setup") != "ok" or obs.get("art_terms") is None and case["config"]["draw"] is not None:
+            return dis
+        for j, (k, _) in enumerate(case["writes"]):
+            mv = self._model_view(replies[pos + j], data, first) if replies[pos + j] != "rejected" else "err"
+            if obs["art_loads"].get(k) != mv:
+                dis.append(f"manager's artifact load({k}): impl {json.dumps(obs['art_loads'].get(k))[:300]} model {replies[pos + j]}")
+        return dis
+
+    def _sim_oracle(self, case, obs):
+        fails = []
+        data, cfg = case["data"], case["config"]
+        first = first_ids(data)
+        stored = dict((k, di) for k, di in case["writes"])
+        tol = obs.setdefault("_tolerated", [])
+
+        def fail(sig, msg):
+            fails.append({"sig": sig, "msg": msg})
+        raw = cfg.get("raw_term")
+        compound = raw is not None and any(x in raw for x in (" and ", " or ", "|", "&"))
+        if (obs["setup"] != "ok") != compound:
+            fail("sim-setup", f"setup {obs['setup']} with artifact_filter_term {raw!r} (a compound term must be refused, a single one accepted)")
+            return fails
+        if compound:
+            return fails
+        if not obs["file_unchanged"]:
+            fail("sim-changed-artifact", "running setup with builder.data.load changed the bytes of the artifact file")
+        want_terms = [] if cfg["draw"] is None else [f"draw == {cfg['draw']}"]
+        if list(obs["art_terms"] or []) != want_terms:
+            fail("sim-base-filter-terms", f"input_draw_number={cfg['draw']}: the manager's artifact has filter terms {obs['art_terms']}, expected {want_terms}")
+        if obs.get("value_columns") != ["value"]:
+            fail("sim-value-columns", f"value_columns() -> {obs.get('value_columns')}")
+        for (k, filters), got in zip(case["loads"], obs["loads"]):
+            where = f"builder.data.load({k!r}, **{filters}) with draw {cfg['draw']}, term {cfg['term']}"
+            if k not in stored:
+                if got[0] != "err":
+                    fail("accepts-invalid-op", f"{where}: a key never written returns {str(got)[:80]}")
+                continue
+            spec = data[stored[k]]
+            exp = manager_expected(spec, cfg["draw"], cfg["term"], filters)
+            if exp[0] == "raises":
+                if got[0] != "err":
+                    fail("sim-load", f"{where}: returned {str(got)[:100]}, expected a refusal ({exp[1]})")
+                elif exp[1] == "draw-filter-series-name":
+                    fail("draw-filter-series-name", f"{where}: the stored Series named {spec['name']!r} cannot be loaded under the draw filter")
+                continue
+            if got[0] == "err":
+                fail("sim-load", f"{where}: raises {got[1]}")
+            elif exp[0] == "json":
+                if got != ["data", ["d", first[stored[k]]]]:
+                    fail("sim-load", f"{where}: returned {str(got)[:100]}")
+            elif exp[0] == "series":
+                want = self._project(spec_canon(spec), exp[1], [])
+                if got != ["filtered", want]:
+                    fail("sim-load", f"{where}: returned {json.dumps(got)[:200]}, expected the stored Series")
+            else:
+                _, cols, rows, labels = exp
+                g = got[1] if got[0] == "filtered" else {}
+                if g.get("t") != "frame" or g.get("cols") != cols or [r[1:] for r in g.get("rows", [])] != rows \
+                        or [r[0] for r in g.get("rows", [])] != [["i", x] for x in labels]:
+                    fail("sim-load", f"{where}: returned columns {g.get('cols')} rows {json.dumps(g.get('rows'))[:200]}; "
+                                     f"expected columns {cols} rows {json.dumps(rows)[:200]} (labels {labels})")
+        return fails
+
+    def _sim_tags(self, case, obs):
+        cfg = case["config"]
+        t = ["kind:sim", f"sim-draw:{'none' if cfg['draw'] is None else 'zero' if cfg['draw'] == 0 else 'n'}",
+             "sim-term:" + ("compound" if cfg.get("raw_term") else "none" if cfg["term"] is None else cfg["term"][0] + ":" + cfg.get("style", ""))]
+        t += [f"tolerated:{c}" for c in sorted(set(obs.get("_tolerated", [])))]
+        for (k, f), got in zip(case["loads"], obs.get("loads", [])):
+            t.append("sim-load:" + ("refused" if got[0] == "err" else "json" if got[0] == "data" else "table")
+                     + ("+filters" if f else ""))
+            for v in f.values():
+                t.append("sim-filter-form:" + ("list" if isinstance(v, list) else type(v).__name__))
+        return t
+
     # ------------------------------------------------------------------ reporting
     def nontrivial(self, case, obs):
+        if case.get("kind") == "sim":
+            return bool(obs.get("loads"))
         outs = [(op[0], rec["out"]) for op, rec in zip(case["ops"], obs["ops"])]
         return (any(k in MUTATING and o == "ok" for k, o in outs) and any(o in ("err", "ctor-err") for _, o in outs)
                 and any(k in ("load", "fload") and o not in ("err", "ctor-err") for k, o in outs))
 
 
     def tags(self, case, obs):
+        if case.get("kind") == "sim":
+            return self._sim_tags(case, obs)
         t = ["probe:" + case["probe"], f"len:{min(len(case['ops']) // 5 * 5, 25)}"]
+        t += [f"tolerated:{c}" for c in sorted(set(obs.get("_tolerated", [])))]
+        t += ["ctor:pathlib.Path" if case.get("pathobj") else "ctor:str", *(["process-noise"] if case.get("noise") else [])]
+        if any(op[0] == "switch" for op in case["ops"]):
+            t.append("two-live-artifacts")
         data = case["data"]
+        for sp in data:
+            if sp["t"] in ("frame", "series"):
+                if sp.get("default_index"):
+                    t.append("index:default-range")
+                elif all(n is None for n in sp["names"]):
+                    t.append("index:unnamed")
+                    if len(sp["names"]) > 1 and (sp["t"] == "series" or not sp["cols"]):
+                        t.append("tolerated:unnamed-index")
+                for ld in sp.get("ldtypes") or []:
+                    if ld:
+                        t.append("level:" + ld)
+                for dt in (sp.get("dtypes") or {}).values():
+                    t.append("column-dtype:" + dt)
+                if len({tuple(map(str, r)) for r in sp["index"]}) < len(sp["index"]):
+                    t.append("index:repeated-labels")
+                if sp["t"] == "series" and sp["name"] != "value":
+                    t.append("series-name:" + str(sp["name"]))
+                if any(c.startswith("#") for c, _ in sp.get("cols", [])):
+                    t.append("column-name:int")
+            if sp["t"] == "json" and sp.get("py"):
+                t.append("json-python:" + sp["py"])
+            if sp["t"] in ("unser", "zerorow", "badframe"):
+                t.append(f"{sp['t']}:{sp['v']}")
+                if sp["v"] in ("empty-unnamed", "empty-range"):
+                    t.append("tolerated:unnamed-index")
         listed = set()
         hist = []
         acting = list(case.get("terms") or [])
@@ -1043,7 +1725,9 @@ class C19(Prop):
             if kind in ("write", "replace", "remove") and acting:
                 t.append(("ok:" if ok else "refused:") + kind + "-under-terms")
             t.append(("ok:" if ok else "refused:") + kind)
-            key = op[1] if len(op) > 1 and kind != "reopen" else None
+            key = op[1] if len(op) > 1 and kind not in ("reopen", "switch") else None
+            if key is not None and well_formed(key) and enc_key(key) != key:
+                t.append("key:unusual-characters")
             if kind == "reopen":
                 t.append("reopen:" + ("no-terms" if not op[1] else "draw-terms" if any(x[0] == "draws" for x in op[1]) else "row-terms"))
             if kind == "load" and ok and out[0] == "filtered" and acting:
@@ -1070,6 +1754,8 @@ class C19(Prop):
                 t.append("fload:" + ("ctor-refused" if out == "ctor-err" else "missing" if out == "err" else "json" if out[0] == "data" else "table"))
                 for term in op[2]:
                     t.append("term:draws" if term[0] == "draws" else "term:" + term[0])
+                    if term[0] == "atom":
+                        t.append("term-const:" + ("str" if isinstance(term[3], str) else "fraction" if isinstance(term[3], float) else "int"))
                     if term[0] != "draws":
                         t.append("term-col:nowhere" if term_cols(term) & NOWHERE else "term-col:named")
                 if ok and out[0] == "filtered":
@@ -1092,6 +1778,8 @@ class C19(Prop):
         return t
 
     def sample_view(self, case, obs):
+        if case.get("kind") == "sim":
+            return {"kind": "sim", "config": case["config"], "loads": case["loads"][:3]}
         return {"probe": case["probe"], "acting_terms": [render_term(x) for x in case.get("terms") or []], "ops": [[*op[:2], (op[2] if len(op) > 2 and op[0] != "fload" else None)] for op in case["ops"][:8]],
                 "outcomes": [rec["out"] if isinstance(rec["out"], str) else rec["out"][0] for rec in obs["ops"][:8]],
                 "final_keys": obs["ops"][-1]["obs"]["keys"] if obs["ops"] else obs["init"]["keys"]}
